@@ -230,7 +230,8 @@ class World:
 
 class Policy:
     """What to inline, what to keep uninterpreted, what to record as an effect."""
-    def __init__(self, inline=None, no_inline=(), effects=(), max_depth=8, stubs=None, atom_hint=None):
+    def __init__(self, inline=None, no_inline=(), effects=(), max_depth=8, stubs=None, atom_hint=None, loop_cut=None):
+        self.loop_cut = loop_cut      # int: a plain `loop` is unrolled this many times, longer runs are pruned (bounded unrolling)
         self.atom_hint = atom_hint    # fn(term) -> bool|None : fix the truth of some conditions instead of splitting
         self.inline = inline          # None = every in-crate fn with HIR; else predicate(path)
         self.stubs = stubs or {}      # normalised path -> fn(state, args, node) -> term
@@ -816,7 +817,13 @@ class State:
         if last == 'next':
             if s[0] == 'list':
                 return some(s[1][0]) if s[1] else NONE
-            return ('call', p, tuple(a))
+            # an opaque iterator yields something new each time it is advanced
+            r = ('call', p, tuple(a))
+            n = self.mutcalls.get(r, 0) + 1
+            self.mutcalls[r] = n
+            if n > 1:
+                r = ('call', p, tuple(a) + (('lit', n, '#nth'),))
+            return r
         return ('call', p, tuple(a))
 
     # -------------------------------------------------------------- patterns
@@ -1367,7 +1374,7 @@ class State:
         body = e['body']
         ifn = body.get('expr') if not body['stmts'] else None
         is_while = e.get('src') == 'While' and ifn is not None and ifn['k'] == 'If'
-        for _ in range(70):
+        for _ in range(self.policy.loop_cut or 70):
             if is_while:
                 c = ifn['c']
                 sym_iter = None
@@ -1459,6 +1466,8 @@ class State:
                 if b.target in (loop_id, None):
                     return b.v if b.v is not None else UNIT
                 raise
+        if self.policy.loop_cut:
+            raise Pruned('loop unrolled to the bound at line %s' % e.get('l'))
         raise EvalError('loop bound exceeded at line %s' % e.get('l'))
 
     def e_Break(self, e, env):
